@@ -190,6 +190,9 @@ func init() {
 			c.ruleSitesPKGO()
 		})
 		c.rulePosInFile()
+		// "positioned inside a non-excluded file": which files are excluded
+		c.ruleSkipShape()
+		c.ruleOneFilter()
 		c.ruleMainExit()
 		c.ruleHierarchy()
 	}, Explanation: "The 16 code constants, CodesByCategory (each code once under its own category), the documented code tables and the URL switch (each category -> an existing page that is the category's documentation page) agree; every report site carries a documented code of its analyzer's category and every code has a site; one report sink, in which the same GetCode()/GetPos() feed the ignore lookup, the `[code] message` header, the help URL and the diagnostic position; positions come from nodes (or annotations) of filtered files; main hands all eight analyzers to multichecker.Main and nothing else terminates the process."})
@@ -251,12 +254,19 @@ func init() {
 			c.ruleSitesPKGO()
 		})
 		c.ruleAttach("@immutable", "@testonly", "@mutable", "@implements", "@constructor", "@packageonly")
+		// moving a declaration to another file / inserting an ordinary comment: qualifiers are resolved against
+		// the imports of the annotation's own file only, and the node after a stand-alone @ignore is the first
+		// node, not a comment group attached to it
+		c.only([]string{"IMPORTS-PER-FILE"}, func() { c.ruleQueries() })
+		c.only([]string{"SCOPE-END/FIRST-NODE"}, func() { c.scopeNextNode() })
 	}, Explanation: "Nothing a walk callback (or what it calls) writes outlives the visit of one node except append-only accumulators and per-file dedup maps created inside the file loop; context fields read during a walk are re-assigned on every path of each iteration before the walk; walk roots are all top-level declarations / whole filtered files with no filter in between; no pruning except the @testonly FuncDecl prune decided on the declaration's own name; ordered position comparisons and line/column numbers occur only in scope computation and rendering; readers carry no state between declarations (doc selection per spec); identity is by object (receiver, direct callee), not by spelling."})
 	registerProp(&propDef{ID: "C13", Rules: func(c *Ctx) {
 		c.ruleAliasAll()
 		c.ruleTypeInfoHelpers()
 		c.ruleNoSyntacticType()
-		c.only([]string{"TYPE-RESOLVE", "ALIAS-RESOLVED", "NOT-POINTER", "IMMUTABLE-INDEX", "CONSTRUCTOR-INDEX", "TYPES-INDEX", "METHODS-INDEX", "FLOOR"}, func() {
+		// no file or declaration is skipped on the strength of how it spells things (its import list, its syntax)
+		c.ruleWalkRoot("immutable", "constructor", "testonly", "packageonly")
+		c.only([]string{"TYPE-RESOLVE", "ALIAS-RESOLVED", "PACKAGE-LEVEL", "NOT-POINTER", "IMMUTABLE-INDEX", "CONSTRUCTOR-INDEX", "TYPES-INDEX", "METHODS-INDEX", "FLOOR"}, func() {
 			c.ruleSitesIMM()
 			c.ruleSitesCTOR()
 			c.ruleSitesTONL()
